@@ -2,7 +2,7 @@
 From JV Require Import Sem Gen Spec SpecX.
 From JV.Proofs Require Import SpecFacts Cal Core Year SpecSets.
 Import ListNotations.
-Require JV.Proofs.Enums.
+Require JV.Proofs.Enums JV.Proofs.YearMeaning.
 Require JV.Proofs.Glue_C08_core.
 Open Scope Z_scope.
 
@@ -55,3 +55,24 @@ Theorem C08_kind_flags : forall k,
   = Ret (ykind_flags k).
 Proof. exact JV.Proofs.Enums.year_kind_flags_ok. Qed.
 Print Assumptions C08_kind_flags.
+
+(* The classification in the property's own words.  [is_old c j]: day j is before the reformation (always for the
+   Julian calendar, never for the Gregorian).  old_days / new_days count the year's dates on either side;
+   AllOld / AllNew: every date of the year lies before / from the reformation. *)
+Theorem C08_days_on_each_side : forall c y, ValidCal c ->
+  CountIs (fun j => InYear c y j /\ is_old c j = true) (old_days c y) /\
+  CountIs (fun j => InYear c y j /\ is_old c j = false) (new_days c y).
+Proof. exact JV.Proofs.YearMeaning.old_new_days_count. Qed.
+Print Assumptions C08_days_on_each_side.
+Theorem C08_kind_meaning : forall c y, ValidCal c ->
+  let n := year_count c y in
+  let k := year_kind_of c y in
+  (k = KSkipped <-> n = 0) /\
+  ((k = KCommon \/ k = KLeap) <->
+     0 < n /\ ((JV.Proofs.YearMeaning.AllOld c y /\ n = ylen (jleap y)) \/ (JV.Proofs.YearMeaning.AllNew c y /\ n = ylen (gleap y)))) /\
+  (k = KLeap -> n = 366 /\ ((JV.Proofs.YearMeaning.AllOld c y /\ jleap y = true) \/ (JV.Proofs.YearMeaning.AllNew c y /\ gleap y = true))) /\
+  (k = KCommon -> n = 365 /\ ((JV.Proofs.YearMeaning.AllOld c y /\ jleap y = false) \/ (JV.Proofs.YearMeaning.AllNew c y /\ gleap y = false))) /\
+  (k = KReformLeap -> 0 < n /\ InCal c y 2 29) /\
+  (k = KReformCommon -> 0 < n /\ ~ InCal c y 2 29).
+Proof. exact JV.Proofs.YearMeaning.year_kind_meaning. Qed.
+Print Assumptions C08_kind_meaning.
